@@ -111,7 +111,8 @@ def finishWrite (d : DSt) : DSt × List String :=
   let d1 := runThread d 0 (fun _ => false) 64
   if quiet d1 0 then
     let d2 := settle d1 64
-    (d2, ["w " ++ counters d2])
+    -- a mutex that is still owned after everybody settled (leak) is what the harness reports as "unsettled"
+    if d2.st.sh.owner.isSome then (d2, ["w unsettled locked"]) else (d2, ["w " ++ counters d2])
   else (d1, ["w blocked"])
 
 def doWrite (d : DSt) (ws : List String) : DSt × List String :=
@@ -143,6 +144,11 @@ def doReq (d : DSt) (ws : List String) : DSt × List String :=
   | none => (d, ["bad-op"])
   | some k =>
     if s ≥ d.cfg.nStreams then (d, ["bad-op"]) else
+    -- only the currently advertised preload hint is a valid target (same rule as the harness)
+    let badHint := match k with
+      | .hint _ hid => d.st.sh.owner.isNone && (d.variant != "ll" || d.st.sh.nextPartID == 0 || hid != d.st.sh.nextPartID)
+      | _ => false
+    if badHint then (d, ["bad-op"]) else
     let tid := d.st.threads.length
     let d0 := { d with st := { d.st with threads := d.st.threads ++ [{ kind := k }] } }
     let d1 := runThread d0 tid (fun _ => false) 64
@@ -170,8 +176,9 @@ def closeLeg (d : DSt) (hold : Option String) : DSt × List String :=
   let d2 := settle d1 64
   match thread? d2 1 with
   | some th =>
-    if th.result.isSome then ({ d2 with closed := true }, ["close done"])
-    else if stop d2 then (d2, ["close held"])
+    let uns := if d2.st.sh.owner.isSome then " unsettled" else ""
+    if th.result.isSome then ({ d2 with closed := true }, ["close done" ++ uns])
+    else if stop d2 then (d2, ["close held" ++ uns])
     else (d2, ["close blocked"])
   | none => (d2, ["bad-op"])
 
